@@ -341,13 +341,35 @@ class T:
         k = key
         while k is not None:
             if k not in ABSTRACT:
+                found = None
                 for st in self.lib.cls(k).body:
                     if isinstance(st, ast.FunctionDef) and st.name == name:
                         decs = [ast.unparse(d) for d in st.decorator_list]
+                        if [d for d in decs if d not in ("property", f"{name}.setter", f"{name}.getter")]:
+                            raise Untranslatable(f"{k[1]}.{name}: decorator {decs}")
                         if setter == (f"{name}.setter" in decs):
-                            return k, st
+                            found = st          # a later definition replaces an earlier one
+                    elif isinstance(st, (ast.Assign, ast.AnnAssign, ast.AugAssign)):
+                        tg = st.targets if isinstance(st, ast.Assign) else [st.target]
+                        if any(isinstance(t, ast.Name) and t.id == name for t in tg):
+                            raise Untranslatable(f"{k[1]}.{name} is rebound at class level")
+                if found is not None:
+                    return k, found
             k = self.base_class(k)
         return None, None
+
+    def check_class_body(self, key, kind):
+        """class-level statements that could change what the translated methods mean"""
+        for st in self.lib.cls(key).body:
+            if isinstance(st, (ast.FunctionDef, ast.ClassDef, ast.Pass)) or \
+                    (isinstance(st, ast.Expr) and isinstance(st.value, ast.Constant)):
+                continue
+            if isinstance(st, ast.AnnAssign):
+                raise Untranslatable(f"{key[1]}: class-level annotation (Component members by annotation are not supported)")
+            if kind == "comp" and isinstance(st, ast.Assign) and all(
+                    isinstance(t, ast.Name) and t.id.startswith("_") for t in st.targets):
+                continue                     # private class attributes (doc templates)
+            raise Untranslatable(f"{key[1]}: class-level statement {ast.unparse(st)[:50]}")
 
     def is_property(self, fn):
         return any(ast.unparse(d) == "property" for d in fn.decorator_list)
@@ -1506,6 +1528,22 @@ class T:
             binders.append(f"({p}_0 : {self.ctype(t)})")
         return dk, fn, params, env, binders
 
+    def default_defs(self, inf, key, params):
+        """the default values of the tracked parameters of __init__, as definitions (what a caller gets who omits them)"""
+        dk, _ = self.find_def(key, "__init__")
+        out = []
+        for (p, t, d) in params:
+            if d is None:
+                continue
+            pre = []
+            v = self.expr(d, {"@rel": dk[0]}, pre, Ctx(key, "default"))
+            if pre:
+                raise Untranslatable(f"{key[1]}: default of {p} may raise")
+            if isinstance(v.t, tuple) and v.t[0] in ("fset", "dict") and v.t[1] is None:
+                v = V("[]", t)
+            out.append(f"Definition gen_{inf.cn}_default_{p} : {self.ctype(t)} := {self.pack(self.coerce(v, t))}.")
+        return out
+
     def tracked(self, env):
         out = []
         for k in sorted(env):
@@ -1545,6 +1583,7 @@ class T:
     def gen_sig(self, key):
         inf = Info(key, "sig")
         inf.rec = inf.cn
+        self.check_class_body(key, "sig")
         dk, fn, params, env, binders = self.init_env(key)
         env["self"] = V("self", ("self", key))
         ctx = Ctx(key, "sig")
@@ -1560,6 +1599,7 @@ class T:
         self.info[key] = inf
         out = [self.src(key), self.emit_record(inf, inf.fields, [f"{inf.cn}_members : pdict pport"]),
                f"Definition gen_{inf.cn}_init {' '.join(binders)} : res {inf.cn} :=\n  {body}."]
+        out += self.default_defs(inf, key, params)
         out += self.gen_props(inf, key, True)
         self.sec["sig"] += out + [""]
         self.sigs.append(key)
@@ -1584,6 +1624,7 @@ class T:
         ex = [f"({n} : {t})" for n, t in ctx.extra]
         out = [self.src(key), self.emit_record(inf, inf.fields, []),
                f"Definition gen_{inf.cn}_init {' '.join(binders + ex)} : res {inf.cn} :=\n  {body}."]
+        out += self.default_defs(inf, key, params)
         out += self.gen_props(inf, key, False)
         self.sec["plain"] += out + [""]
         return inf
@@ -1608,6 +1649,7 @@ class T:
     def gen_iface(self, key):
         inf = Info(key, "iface")
         inf.rec = inf.cn
+        self.check_class_body(key, "iface")
         dk, fn, params, env, binders = self.init_env(key)
         env["self"] = V("self", ("self", key))
         ctx = Ctx(key, "iface")
@@ -1626,6 +1668,7 @@ class T:
         out = [self.src(key),
                self.emit_record(inf, inf.fields, [f"{inf.cn}_signature : (bool * {self.need(inf.sigkey).rec})"]),
                f"Definition gen_{inf.cn}_init {' '.join(binders)} : res {inf.cn} :=\n  {body}."]
+        out += self.default_defs(inf, key, params)
         out += self.gen_props(inf, key, False)
         self.gen_setters(inf, key, out)
         self.sec["iface"] += out + [""]
@@ -1737,6 +1780,7 @@ class T:
 
     def gen_comp(self, key):
         inf = Info(key, "comp")
+        self.check_class_body(key, "comp")
         dk, fn = self.find_def(key, "__init__")
         if fn is None or dk != key:
             raise Untranslatable(f"{key[1]} has no __init__ of its own")
@@ -1769,6 +1813,7 @@ class T:
                        "".join(f"; {inf.cn}_port_{n} : (bool * {self.need(v[1]).rec})" for n, v in res["created"].items()) + " }.")
         self.info[key] = inf
         out.append(f"Definition gen_{inf.cn}_init {' '.join(binders + ex)} : res {inf.rec} :=\n  {body}.")
+        out += self.default_defs(inf, key, params)
         self.sec["comp"] += out + [""]
         return inf
 
